@@ -7,7 +7,9 @@ exit 2: machinery failure (build, TLC error, parse error) - never a verdict
 """
 import hashlib
 import json
+import atexit
 import os
+import shutil
 import subprocess
 import sys
 import time
@@ -68,6 +70,19 @@ class Check(object):
     def scratch(self):
         d = os.path.join(self.env['VERIF_SCRATCH'],
                          '%s-%d' % (self.pid, os.getpid()))
+        if not os.path.isdir(d):
+            os.makedirs(d, exist_ok=True)
+            if not os.environ.get('VERIF_KEEP_SCRATCH'):
+                # scratch data of a run is removed when the check exits
+                # (replay files live under /verif/replays, not here)
+                atexit.register(shutil.rmtree, d, ignore_errors=True)
+        return d
+
+    def private_home(self):
+        """HOME for drivers that compile throw-away (randomly generated)
+        modules: pysph's generated-code cache then lives in the scratch
+        directory of this run instead of growing the shared one."""
+        d = os.path.join(self.scratch, 'home')
         os.makedirs(d, exist_ok=True)
         return d
 
